@@ -11,6 +11,7 @@ CONSTANTS
   BigCode = 43
   BigLens = {0}
   IdClasses = {"rand"}
+  WriteFailures = {"none"}
   NICs = {"nicA"}
   Parts = {"build"}
 INVARIANTS Export ModelOK
